@@ -94,6 +94,7 @@ Definition SO2 : GroupOps F := {|
   g_smallAdj := so2_smallAdj; g_generator := so2_generator; g_vee := so2_vee;
   g_bracket := fun a b => mvmul (so2_smallAdj a) b;
   g_innerweights := inner_weights_generic 1 2 so2_generator;
-  g_trandom := so2_trandom
+  g_trandom := so2_trandom;
+  g_grandom := fun u => so2_exp (so2_trandom u)
 |}.
 End SO2.
